@@ -230,8 +230,10 @@ class MatrixDFTExecutor:
         """Key to X, Y, U, V dicts."""
         if isinstance(Q, (float, int)):
             Q = (Q, Q)
-        elif not isinstance(Q, tuple):
-            Q = tuple(float(q) for q in Q)  # float for dtype stabilization: cupy
+        else:
+            # float for dtype stabilization: cupy, and tuples of numpy float32
+            # which would drag the basis normalization to single precision
+            Q = tuple(float(q) for q in Q)
 
         if not isinstance(samples_in, Iterable):
             samples_in = (samples_in, samples_in)
